@@ -1317,6 +1317,18 @@ func addParallel(r *core.RNG, sc *cliScenario, x *cliExec) *cliScenario {
 		k := r.Intn(n)
 		par.Runs[k].Faults = []simos.Fault{{AtOp: r.Intn(len(tr)), Kind: "kill"}}
 	} else if r.Chance(1, 5) {
+		// one of them meets an I/O error on a cache or temporary file
+		var cand []int
+		for i, o := range tr {
+			if o.Class == "cache" || o.Class == "tmp" {
+				cand = append(cand, i)
+			}
+		}
+		if len(cand) > 0 {
+			k := r.Intn(n)
+			par.Runs[k].Faults = []simos.Fault{{AtOp: cand[r.Intn(len(cand))], Kind: pickS(r, []string{"eio", "enospc", "eacces", "enoent"})}}
+		}
+	} else if r.Chance(1, 5) {
 		// one of them writes to a reader that goes away (| head)
 		k := r.Intn(n)
 		var outLen int
